@@ -769,7 +769,8 @@ def _dispatch(name, real):
 
 
 def get_blas_funcs(names, arrays=(), dtype=None, **k):
-    arrays = tuple(np.empty(0, dtype=real_dtype(a._fake)) if isinstance(a, SymArray) else a for a in arrays)
+    arrays = tuple(np.empty(0, dtype=real_dtype(a._fake)) if isinstance(a, SymArray) else
+                   (np.empty(0, dtype=a._dt) if getattr(a, '_is_larr', False) else a) for a in arrays)
     dtype = _xlate(dtype)
     real = _real_get_blas_funcs(names, arrays, dtype, **k)
     if isinstance(names, str):
